@@ -566,6 +566,15 @@ def Eq(a, b):
     if isinstance(a, SDict) and isinstance(b, SDict):
         if len(a.items) != len(b.items):
             return SBool(False)
+        ka = [k.concrete() if isinstance(k, (SStr, SBytes, SInt)) else None for k, _ in a.items]
+        kb = [k.concrete() if isinstance(k, (SStr, SBytes, SInt)) else None for k, _ in b.items]
+        if a.items and None not in ka and None not in kb and len(set(map(repr, ka))) == len(ka) and len(set(map(repr, kb))) == len(kb):
+            # all keys concrete: dict equality does not depend on insertion order
+            tk = lambda k: (type(k).__name__, k)
+            mb = {tk(k): v for k, (_, v) in zip(kb, b.items)}
+            if set(mb) != {tk(k) for k in ka}:
+                return SBool(False)
+            return SBool(z3.And(*[_b(Eq(v, mb[tk(k)])) for k, (_, v) in zip(ka, a.items)]))
         return SBool(z3.And(*[z3.And(_b(Eq(k1, k2)), _b(Eq(v1, v2))) for (k1, v1), (k2, v2) in zip(a.items, b.items)])) if a.items else SBool(True)
     if isinstance(a, SFloat) and isinstance(b, SFloat):
         return SBool(a.t == b.t)
